@@ -161,12 +161,18 @@ impl Workspace {
         let created_at_ms = now_ms();
         let checkpoint_root = self.checkpoints_dir.join(session_id).join(&checkpoint_id);
         let files_root = checkpoint_root.join("files");
+
+        // Resolve every requested path before touching the checkpoint store: a refused request
+        // must leave nothing behind.
+        let mut resolved = Vec::with_capacity(files.len());
+        for path in files {
+            resolved.push(self.to_relative(path)?);
+        }
         fs::create_dir_all(&files_root)?;
 
         let mut entries = Vec::new();
 
-        for path in files {
-            let rel = self.to_relative(path)?;
+        for (path, rel) in files.iter().zip(resolved) {
             let dest = files_root.join(&rel);
 
             if path.exists() {
@@ -291,9 +297,20 @@ impl Workspace {
         } else {
             self.root.join(path)
         };
-        abs.strip_prefix(&self.root)
+        let rel = abs
+            .strip_prefix(&self.root)
             .map(|p| p.to_path_buf())
-            .map_err(|_| io::Error::new(io::ErrorKind::InvalidInput, "path outside workspace"))
+            .map_err(|_| io::Error::new(io::ErrorKind::InvalidInput, "path outside workspace"))?;
+        if rel
+            .components()
+            .any(|component| matches!(component, Component::ParentDir))
+        {
+            return Err(io::Error::new(
+                io::ErrorKind::InvalidInput,
+                "path escapes workspace root",
+            ));
+        }
+        Ok(rel)
     }
 
     fn safe_join(&self, rel: &Path) -> io::Result<PathBuf> {
